@@ -57,6 +57,13 @@ def _classes(spec, model, stats):
         out.append('subclass_attr_query')
     if stats.get('not_instance_lookups'):
         out.append('lookup_in_wrong_class')
+    if stats.get('random_nonroot'):
+        out.append('select_random_nonroot')
+    if stats.get('to_dict_checks'):
+        out.append('to_dict')
+    out.append('observe:' + spec.get('observe', 'type'))
+    if spec.get('pk_step', 1) > 1:
+        out.append('sparse_pk')
     for r in spec['refs']:
         out.append('ref:' + r['kind'])
     return sorted(set(out))
